@@ -375,7 +375,7 @@ def run_property(mod, tier: str, seed: int, only_subs: Optional[List[str]] = Non
             'exhaustive': bool(s.exhaustive),
             'kind': 'enumerated' if s.enumerate is not None else 'hypothesis',
             'inconclusive': a['inconclusive'],
-            'classes': dict(sorted(a['labels'].items(), key=lambda kv: (-kv[1], kv[0]))[:60]),
+            'classes': dict(sorted(a['labels'].items(), key=lambda kv: (-kv[1], kv[0]))[:150]),
             'known_findings_observed': dict(a['known']),
         }
         for smp in a['samples'][:3]:
